@@ -1565,6 +1565,119 @@ Proof.
   - exists p, raw, p'. repeat apply conj; try assumption; congruence.
 Qed.
 
+(* ---- the decidable hypotheses (Grammar.rebuildable_*) imply the ones of the _state theorems ---- *)
+Lemma lift_unlift h : hdict_canonical h = true -> h = lift_headers (unlift h).
+Proof.
+  destruct h as [d|]; [|reflexivity]. cbn [hdict_canonical unlift]. destruct d as [|e0 d0]; [discriminate|].
+  set (d := e0 :: d0). intros H.
+  assert (E : d = map lift1 (map (fun e => (fst (snd e), snd (snd e))) d)).
+  { clearbody d. induction d as [|[k [o v]] t IH]; [reflexivity|].
+    cbn [forallb fst snd] in H. apply andb_true_iff in H as [Hk Ht]. apply bytes_eqb_eq in Hk. subst k.
+    cbn [map lift1 fst snd]. f_equal. now apply IH. }
+  unfold lift_headers. unfold d at 2. cbn [map]. fold (map (fun e : bytes * (bytes * bytes) => (fst (snd e), snd (snd e))) d0).
+  rewrite E at 1. reflexivity.
+Qed.
+
+Lemma tokb_tok l : tokb l = true -> tok l.
+Proof. unfold tokb, tok. intros H. apply andb_true_iff in H as [H1 H2]. split; [now apply no_sp_sp|now apply no_cr_cr]. Qed.
+
+Lemma framing_consistent_b_req p hs : framing_consistent_b false p hs = true -> framing_consistent p hs.
+Proof.
+  unfold framing_consistent_b, framing_consistent. destruct (get_ci TRANSFER_ENCODING hs) as [te|].
+  - intros H. apply andb_true_iff in H as [H Hb]. apply andb_true_iff in H as [H Hc]. apply andb_true_iff in H as [Ht Hk].
+    apply bytes_eqb_eq in Ht. apply negb_true_iff in Hc. rewrite has_key_ci_get in Hc.
+    repeat apply conj; [exact Ht|exact Hk| |].
+    + destruct (get_ci CONTENT_LENGTH hs); [discriminate|reflexivity].
+    + destruct (body p); [discriminate|discriminate].
+  - intros H. apply andb_true_iff in H as [Hk H]. apply negb_true_iff in Hk. split; [exact Hk|].
+    destruct (get_ci CONTENT_LENGTH hs) as [cl|].
+    + destruct (truthy (body p)).
+      * apply andb_true_iff in H as [H1 H2]. apply bytes_eqb_eq in H1. split; assumption.
+      * destruct (int10 cl) as [z|]; [|discriminate]. apply Z.eqb_eq in H. now subst.
+    + now apply negb_true_iff in H.
+Qed.
+
+Lemma framing_consistent_b_resp p hs : framing_consistent_b true p hs = true -> framing_consistent_resp p hs.
+Proof.
+  unfold framing_consistent_b, framing_consistent_resp. destruct (get_ci TRANSFER_ENCODING hs) as [te|].
+  - intros H. apply andb_true_iff in H as [H Hb]. apply andb_true_iff in H as [H Hc]. apply andb_true_iff in H as [Ht Hk].
+    apply bytes_eqb_eq in Ht. apply negb_true_iff in Hc. rewrite has_key_ci_get in Hc.
+    repeat apply conj; [exact Ht|exact Hk| |].
+    + destruct (get_ci CONTENT_LENGTH hs); [discriminate|reflexivity].
+    + destruct (body p); [discriminate|discriminate].
+  - intros H. apply andb_true_iff in H as [Hk H]. apply negb_true_iff in Hk. split; [exact Hk|].
+    destruct (get_ci CONTENT_LENGTH hs) as [cl|].
+    + destruct (truthy (body p)).
+      * apply andb_true_iff in H as [H1 H2]. apply bytes_eqb_eq in H1. split; assumption.
+      * now apply bytes_eqb_eq in H.
+    + now apply negb_true_iff in H.
+Qed.
+
+Lemma truthy_inv (o : option bytes) : truthy o = true -> exists x, o = Some x /\ x <> [] /\ or_empty o = x.
+Proof. destruct o as [[|a t]|]; try discriminate. intros _. exists (a :: t). repeat split. discriminate. Qed.
+
+Theorem rebuild_stable_request_bool ua p : rebuildable_req p = true ->
+  exists raw p', build ua p [] false None = Ok raw /\
+    parse (new_parser REQUEST_PARSER) raw = Ok p' /\
+    state p' = COMPLETE /\ buffer p' = None /\
+    method p' = method p /\ version p' = version p /\ path p' = Some (path0 p) /\ host p' = None /\
+    headers p' = headers p /\ bodyb p' = bodyb p /\ is_chunked_encoded p' = is_chunked_encoded p.
+Proof.
+  unfold rebuildable_req. cbv zeta. intros H.
+  repeat (apply andb_true_iff in H as [H ?]).
+  match goal with X : framing_consistent_b _ _ _ = true |- _ => apply framing_consistent_b_req in X; rename X into Hf end.
+  match goal with X : nodup_ci _ = true |- _ => apply nodup_ci_NoDup in X; rename X into Hn end.
+  match goal with X : forallb ok_header _ = true |- _ => rename X into Hok end.
+  match goal with X : hdict_canonical _ = true |- _ => apply lift_unlift in X; rename X into Hh end.
+  match goal with X : path_ok_b _ = true |- _ => rename X into Hp end.
+  match goal with X : no_cr (or_empty (version p)) = true |- _ => rename X into Hv2 end.
+  match goal with X : truthy (version p) = true |- _ => destruct (truthy_inv _ X) as (v & Ev & Hv1 & Ev') end.
+  match goal with X : tokb (or_empty (method p)) = true |- _ => rename X into Hm2 end.
+  match goal with X : truthy (method p) = true |- _ => destruct (truthy_inv _ X) as (m & Em & Hm1 & Em') end.
+  assert (Ht : ty p = REQUEST_PARSER) by (destruct (ty p); [reflexivity|discriminate]).
+  rewrite Em' in Hm2. rewrite Ev' in Hv2.
+  destruct (rebuild_stable_request_state ua p m v (unlift (headers p))) as (raw & p' & R); try assumption.
+  - now apply tokb_tok.
+  - now apply no_cr_cr.
+  - unfold path_ok_b in Hp. apply orb_true_iff in Hp as [Hp|Hp]; [left; now apply negb_true_iff in Hp|].
+    right. destruct (path p) as [[|x t]|]; try discriminate.
+    apply andb_true_iff in Hp as [Hp H3]. apply andb_true_iff in Hp as [H1 H2]. apply N.eqb_eq in H1. subst x.
+    exists t. repeat split; try apply (tokb_tok _ H2).
+    destruct t as [|y t']; [exact I|]. apply negb_true_iff in H3. now apply N.eqb_neq in H3.
+  - apply wfh_wfhP. split; assumption.
+  - exists raw, p'. destruct R as (R1 & R2 & R3 & R4 & R5 & R6 & R7 & R8 & R9 & R10 & R11).
+    repeat apply conj; try assumption; congruence.
+Qed.
+
+Theorem rebuild_stable_response_bool p : rebuildable_resp p = true ->
+  exists raw p', build_response p = Ok raw /\
+    parse (new_parser RESPONSE_PARSER) raw = Ok p' /\
+    state p' = COMPLETE /\ buffer p' = None /\
+    version p' = version p /\ code p' = code p /\ or_empty (reason p') = or_empty (reason p) /\
+    headers p' = headers p /\ bodyb p' = bodyb p /\ is_chunked_encoded p' = is_chunked_encoded p.
+Proof.
+  unfold rebuildable_resp. cbv zeta. intros H.
+  repeat (apply andb_true_iff in H as [H ?]).
+  match goal with X : framing_consistent_b _ _ _ = true |- _ => apply framing_consistent_b_resp in X; rename X into Hf end.
+  match goal with X : nodup_ci _ = true |- _ => apply nodup_ci_NoDup in X; rename X into Hn end.
+  match goal with X : forallb ok_header _ = true |- _ => rename X into Hok end.
+  match goal with X : hdict_canonical _ = true |- _ => apply lift_unlift in X; rename X into Hh end.
+  match goal with X : no_cr (or_empty (reason p)) = true |- _ => rename X into Hr end.
+  match goal with X : tokb (or_empty (version p)) = true |- _ => rename X into Hv2 end.
+  match goal with X : truthy (version p) = true |- _ => destruct (truthy_inv _ X) as (v & Ev & Hv1 & Ev') end.
+  match goal with X : match int10 _ with Ok _ => _ | Err _ => _ end = true |- _ => rename X into Hc2 end.
+  match goal with X : truthy (code p) = true |- _ => destruct (truthy_inv _ X) as (c & Ec & Hc1 & Ec') end.
+  assert (Ht : ty p = RESPONSE_PARSER) by (destruct (ty p); [discriminate|reflexivity]).
+  rewrite Ec' in Hc2. rewrite Ev' in Hv2.
+  destruct (int10 c) as [z|] eqn:Iz; [|discriminate]. apply bytes_eqb_eq in Hc2.
+  destruct (rebuild_stable_response_state p c z v (unlift (headers p))) as (raw & p' & R); try assumption.
+  - now apply tokb_tok.
+  - now apply no_cr_cr.
+  - apply wfh_wfhP. split; assumption.
+  - exists raw, p'. destruct R as (R1 & R2 & R3 & R4 & R5 & R6 & R7 & R8 & R9 & R10).
+    repeat apply conj; try assumption; congruence.
+Qed.
+
 (* ===================================================================================== *)
 (* what the builders emit is well-formed for the RFC 7230-level recogniser                *)
 
